@@ -95,6 +95,7 @@ const (
 	opMNewValueSet
 	opMIsValid
 	opTransplant // Set(fd, <message h2>.Get(fd)): the value of the same field of another message of the same type
+	opSelfAssign // if Has(fd): Set(fd, Get(fd)) - storing a field's own current value changes nothing
 )
 
 type op struct {
@@ -112,7 +113,7 @@ type op struct {
 func (o op) String() string {
 	names := []string{"Has", "Get", "Set", "SetNewMessage", "Clear", "Mutable", "NewField", "SetDetached", "WhichOneof", "Range", "GetUnknown", "SetUnknown", "IsValid", "Mutable(scalar)", "Has(foreign-fd)",
 		"List.Len", "List.Get", "List.Set", "List.Append", "List.AppendMutable", "List.Truncate", "List.NewElement+Append", "List.IsValid",
-		"Map.Len", "Map.Has", "Map.Get", "Map.Set", "Map.Clear", "Map.Mutable", "Map.Range", "Map.NewValue+Set", "Map.IsValid", "SetFromOtherMessage"}
+		"Map.Len", "Map.Has", "Map.Get", "Map.Set", "Map.Clear", "Map.Mutable", "Map.Range", "Map.NewValue+Set", "Map.IsValid", "SetFromOtherMessage", "SetOwnValue"}
 	s := fmt.Sprintf("h%d.%s", o.h, names[o.code])
 	if o.fd != nil {
 		s += "(" + string(o.fd.Name()) + ")"
@@ -263,6 +264,12 @@ func exec(w *world, o op) (r execResult) {
 			fd := localFD(hv.m, o.fd)
 			src := w.h[o.h2].m
 			hv.m.Set(fd, src.Get(localFD(src, o.fd)))
+		case opSelfAssign:
+			fd := localFD(hv.m, o.fd)
+			if hv.m.Has(fd) {
+				hv.m.Set(fd, hv.m.Get(fd))
+				r.res = "stored"
+			}
 		case opWhichOneof:
 			od := hv.m.Descriptor().Oneofs().ByName(o.od.Name())
 			f := hv.m.WhichOneof(od)
@@ -893,6 +900,14 @@ func (c *rdCase) msgStep(h int, hi hinfo) {
 			}
 		case 2:
 			c.step(op{code: opSetUnknown, h: h, raw: nil}, nil)
+		case 3:
+			// read-modify-write without the modify: the field keeps its value (lists, maps, messages: the very same container)
+			if fd := c.pickField(d, isComposite); fd != nil {
+				c.step(op{code: opSelfAssign, h: h, fd: fd}, nil)
+				c.killThrough(h, fd.Number(), "") // aliasing after Set is unspecified: views taken before are not used again
+			} else {
+				c.step(op{code: opSetUnknown, h: h, raw: nil}, nil)
+			}
 		default:
 			c.step(op{code: opSetUnknown, h: h, raw: c.g.UnknownRecord(d, 0)}, nil)
 		}
